@@ -142,6 +142,8 @@ class Explorer:
 
     def explore(self, run_once):
         stack = [[]]
+        gave_up = None
+        self.undecided_paths = 0
         while stack:
             pre = stack.pop()
             self.decisions = list(pre)
@@ -150,10 +152,21 @@ class Explorer:
             self.paths += 1
             if self.paths > self.max_paths:
                 raise Undecided(f'more than {self.max_paths} paths')
-            run_once()
+            try:
+                run_once()
+            except Undecided as u:
+                # this path cannot be decided: the lemma is undecided (re-raised at the end, nothing is counted as proved), but the other paths are
+                # still explored - they are genuine executions, and an obligation refuted on one of them is reported in addition
+                if gave_up is None:
+                    gave_up = u
+                if os.environ.get('VERIF_DEBUG_UNDECIDED'):
+                    print('  [undecided path]', u, flush=True)
+                self.undecided_paths += 1
             for (i, n) in self.forks:
                 for alt in range(1, n):
                     stack.append(self.decisions[:i] + [alt])
+        if gave_up is not None:
+            raise gave_up
 
 
 class Exec:
